@@ -10,7 +10,8 @@ use std::collections::BTreeSet;
 use std::sync::atomic::{AtomicU64, Ordering};
 
 use quandary::class::Class;
-use quandary::db::zone::{GluePolicy, ValidationIssue};
+use quandary::db::zone::{GluePolicy, IteratorByNode, LookupAddrsResult, LookupAllResult, LookupOptions, LookupResult, ValidationIssue};
+use quandary::name::Name;
 use quandary::db::{HashMapTreeZone, Zone};
 use quandary::rr::{Ttl, Type};
 use qvlib::qd::{qname, rdata, wn};
@@ -394,11 +395,70 @@ struct Verdict {
     decisions: Vec<&'static str>,
 }
 
+/// The same zone behind another `Zone` implementation, one that builds
+/// `lookup_addrs` from per-type lookups and therefore fills in the AAAA RRset
+/// whatever the class (the trait documentation leaves it to the *caller* to
+/// ignore that field outside class IN). Validation is written against the
+/// trait, so what it reports must not depend on which implementation holds
+/// the records.
+struct PerTypeAddrs<'a>(&'a HashMapTreeZone);
+
+impl Zone for PerTypeAddrs<'_> {
+    fn name(&self) -> &Name {
+        self.0.name()
+    }
+    fn class(&self) -> Class {
+        self.0.class()
+    }
+    fn glue_policy(&self) -> GluePolicy {
+        self.0.glue_policy()
+    }
+    fn lookup(&self, name: &Name, rr_type: Type, options: LookupOptions) -> LookupResult {
+        self.0.lookup(name, rr_type, options)
+    }
+    fn lookup_addrs(&self, name: &Name, options: LookupOptions) -> LookupAddrsResult {
+        match self.0.lookup_addrs(name, options.clone()) {
+            LookupAddrsResult::Found(mut found) => {
+                if found.data.aaaa_rrset.is_none() {
+                    if let LookupResult::Found(aaaa) = self.0.lookup(name, Type::AAAA, options) {
+                        found.data.aaaa_rrset = Some(aaaa.data);
+                    }
+                }
+                LookupAddrsResult::Found(found)
+            }
+            other => other,
+        }
+    }
+    fn lookup_all(&self, name: &Name, options: LookupOptions) -> LookupAllResult {
+        self.0.lookup_all(name, options)
+    }
+    fn iter_by_node(&self) -> IteratorByNode {
+        self.0.iter_by_node()
+    }
+}
+
 fn judge(zone: &HashMapTreeZone, model: &RefStore, wide: bool) -> Verdict {
+    let mut v = judge_impl(zone, model, wide, false);
+    if v.bad.is_none() {
+        let v2 = judge_impl(zone, model, wide, true);
+        if let Some((k, d)) = v2.bad {
+            v.bad = Some((format!("other-zone-impl:{k}"), format!("validated through a Zone implementation whose lookup_addrs reports AAAA in every class: {d}")));
+            v.got = v2.got;
+        }
+    }
+    v
+}
+
+fn judge_impl(zone: &HashMapTreeZone, model: &RefStore, wide: bool, wrapped: bool) -> Verdict {
     let exp = reference(model, wide);
     let texts = |s: &BTreeSet<Issue>| s.iter().map(|i| i.text()).collect::<Vec<_>>();
     let mut v = Verdict { class: String::new(), bad: None, got: vec![], must: texts(&exp.must), may: texts(&exp.may), decisions: exp.decisions.iter().copied().collect() };
-    let res = catch(|| zone.validate().map(|issues| issues.iter().map(|i| (issue_of(i), i.is_error())).collect::<Vec<_>>()));
+    let res = if wrapped {
+        let w = PerTypeAddrs(zone);
+        catch(|| w.validate().map(|issues| issues.iter().map(|i| (issue_of(i), i.is_error())).collect::<Vec<_>>()))
+    } else {
+        catch(|| zone.validate().map(|issues| issues.iter().map(|i| (issue_of(i), i.is_error())).collect::<Vec<_>>()))
+    };
     let issues = match res {
         Err(p) => {
             v.class = "panic".into();
@@ -709,6 +769,7 @@ pub fn main(ctx: Ctx) -> ! {
             "a server or exchanger name synthesised from a wildcard that owns NS (semantics undefined by RFC 4592 §4.2): the address issue is accepted either way",
             "zones whose NS/MX RDATA is not a well-formed name may be answered with Err(InvalidRdata) (not covered by the statement); otherwise Err is a violation",
             "issues are compared as sets with names lower-cased",
+            "every zone is validated twice: as the HashMapTreeZone itself and through a wrapper Zone implementation whose lookup_addrs fills in the AAAA RRset in every class; both must satisfy the reference",
         ]),
     );
     ctx.finish(
